@@ -2,6 +2,7 @@
 package main
 
 import (
+	"bytes"
 	"encoding/json"
 	"fmt"
 	"os"
@@ -121,6 +122,27 @@ func main() {
 		"uid": {int64(0), int64(4294967295)}, "gid": {int64(0), int64(4294967295)}, "fileMode": {int64(0), int64(0o777), int64(4294967295), int64(0o4755)},
 		"timeout": {int64(0), int64(1), int64(4294967295)},
 	}
+	// documents made large by legal means: every annotation set below its own 256 KiB limit, several
+	// devices - more than a MiB as a file; and many small devices
+	if len(bases) > 0 {
+		b := bases[0]
+		pad := strings.Repeat("x", 200*1024)
+		var big, many []any
+		for i := 0; i < 7; i++ {
+			big = append(big, map[string]any{"name": fmt.Sprintf("big%d", i), "annotations": map[string]any{"pad.example.com/p": pad}, "containerEdits": map[string]any{"env": []any{"A=b"}}})
+		}
+		for i := 0; i < 9000; i++ {
+			many = append(many, map[string]any{"name": fmt.Sprintf("dev%05d", i), "containerEdits": map[string]any{"env": []any{fmt.Sprintf("INDEX=%d", i), "PAD=" + strings.Repeat("x", 100)}}})
+		}
+		for name, devs := range map[string][]any{"seven-devices-with-200KiB-of-annotations-each": big, "9000-devices": many} {
+			m := gen.Mutation{Class: "large-document:" + name, Path: gen.Path{"devices"}, Op: "set", Value: devs}
+			doc := gen.Apply(b.Tree, m)
+			if name[0] == 's' {
+				doc = gen.Apply(doc, gen.Mutation{Path: gen.Path{"annotations"}, Op: "set", Value: map[string]any{"pad.example.com/spec": pad}}, gen.Mutation{Path: gen.Path{"cdiVersion"}, Op: "set", Value: "0.6.0"})
+			}
+			cases = append(cases, Case{Base: b.Name, Mutations: []gen.Mutation{{Class: m.Class}}, Doc: doc, tree: b.Tree})
+		}
+	}
 	for bi, b := range bases {
 		add(b, nil)
 		for _, m := range gen.Defects(b.Tree) {
@@ -234,6 +256,15 @@ func main() {
 			data, _ := os.ReadFile(p)
 			if err := builtin.ValidateData(data); err != nil {
 				fail(*c, "schema-rejects-written-data:"+filepath.Ext(name), "content written by WriteSpec rejected by ValidateData: "+firstLine(err.Error()), err.Error())
+			}
+			if name == "out.json" {
+				// the reader entry points take JSON
+				if err := builtin.ValidateReader(bytes.NewReader(data)); err != nil {
+					fail(*c, "schema-rejects-written-data-through-a-reader", "content written by WriteSpec rejected by ValidateReader: "+firstLine(err.Error()), err.Error())
+				}
+				if back, err := builtin.ReadAndValidate(bytes.NewReader(data)); err != nil || !bytes.Equal(back, data) {
+					fail(*c, "schema-rejects-written-data-through-a-reader", fmt.Sprintf("ReadAndValidate of the written content: error %v, %d of %d bytes returned", err, len(back), len(data)), nil)
+				}
 			}
 			_ = os.Remove(p)
 		}
